@@ -42,6 +42,7 @@ pub mod q {
     mal_harness!(m_string, String, 11, 6, 3);
     mal_harness!(m_vec_usize_loop, Vec<usize>, 26, 5, 2);
     mal_harness!(m_arrayvec, arrayvec::ArrayVec<u8, 3>, 12, 6, u64::MAX);
+    mal_harness!(m_arrayvec_loop, arrayvec::ArrayVec<usize, 2>, 32, 6, u64::MAX);
     mal_harness!(m_enum_u8, EqU8, 4, 4, u64::MAX);
     mal_harness!(m_enum_u16, EqU16, 4, 4, u64::MAX);
     mal_harness!(m_enum_data, EqData, 8, 4, u64::MAX);
